@@ -627,7 +627,15 @@ def probe_vario(ctx, rng, n_cases):
         ctx.count(key, hist=dict(probe="vario_estimate(latlon)", geo_scale=gname))
         case = dict(geo_scale=g, lat=hexl(lat), lon=hexl(lon), field=hexl(fld), edges=hexl(edges))
         try:
-            bc, gam, cnt = gs.vario_estimate((lat, lon), fld, edges.copy(), latlon=True, geo_scale=g, return_counts=True)
+            e_in = edges.copy()
+            bc, gam, cnt = gs.vario_estimate((lat, lon), fld, e_in, latlon=True, geo_scale=g, return_counts=True)
+            # the same bin array used again (second variable / second estimator): same geometry, same bin membership
+            _, gam_b, cnt_b = gs.vario_estimate((lat, lon), fld, e_in, latlon=True, geo_scale=g, return_counts=True)
+            if not (np.array_equal(cnt, cnt_b) and np.array_equal(e_in, edges)):
+                viol(ctx, "probe: vario_estimate(latlon) with a re-used bin array",
+                     "a second vario_estimate call with the same bin_edges array bins the pairs differently (the bins are no longer in "
+                     "the unit of geo_scale)", dict(case, counts_first=[int(c) for c in cnt], counts_second=[int(c) for c in cnt_b],
+                                                    edges_after=hexl(e_in)), "probe:vario-reused-bins")
         except Exception as e:
             viol(ctx, "probe: vario_estimate raises", "vario_estimate(latlon=True) raised %r" % (e,), case, "probe:exception")
             continue
